@@ -997,8 +997,21 @@ func (p enforceParameters) Get(name string) (interface{}, error) {
 	}
 }
 
+// maxEvalNesting bounds eval() calls made from within an eval()-ed rule.
+const maxEvalNesting = 32
+
 func generateEvalFunction(functions map[string]govaluate.ExpressionFunction, parameters *enforceParameters) govaluate.ExpressionFunction {
+	// the function is generated per enforce call, so the counter is not shared between goroutines
+	nesting := 0
 	return func(args ...interface{}) (interface{}, error) {
+		// a rule may itself call eval(): a rule that (directly or through others) refers to itself
+		// would otherwise recurse until the goroutine stack overflows, which recover() cannot catch
+		if nesting >= maxEvalNesting {
+			return nil, fmt.Errorf("eval() is nested more than %d levels deep", maxEvalNesting)
+		}
+		nesting++
+		defer func() { nesting-- }()
+
 		if len(args) != 1 {
 			return nil, fmt.Errorf("function eval(subrule string) expected %d arguments, but got %d", 1, len(args))
 		}
